@@ -45,7 +45,10 @@ func c05Pair(r *vlib.Run, id string, min, max time.Duration, extraDraw int64) in
 	}
 	src := &vSrc63{}
 	rnd := rand.New(src)
-	for _, i := range []int{0, 1, 2, 3, 4, 50} {
+	// indices: the first ones, and those where an index narrowed to 8, 16 or 32
+	// bits would be among "the first three" again (a day, a year, a lifetime of
+	// unsolicited advertisements in one generation)
+	for _, i := range []int{0, 1, 2, 3, 4, 50, 255, 256, 257, 258, 259, 65535, 65536, 65538, 65539, 1<<31 - 1, 1 << 31, 1<<31 + 2, 1 << 32, 1<<32 + 1, 1<<32 + 3, 1<<62 + 1} {
 		for _, dr := range draws {
 			src.v = dr
 			var d time.Duration
